@@ -37,3 +37,8 @@ Proof.
   destruct (mpdDiff_sound ex_old ex_new pd E (tree_okb_spec _ _ _ _ ex_premise)) as (new' & H1 & H2).
   exists pd, new'. auto.
 Qed.
+
+(** the structural premise of C11_tree_ids holds for the same pair *)
+From Verif Require Import PatchProofsIds.
+Lemma ex_structural : tree_wab (@myers elem) (S (depth ex_old)) ex_old ex_new = true.
+Proof. vm_cast_no_check (eq_refl true). Qed.
